@@ -34,6 +34,7 @@ class PduModel:
             for name, ci in m.classes.items():
                 if "_encoders" in ci.getters and name not in ("PDU", "PDUItem"):
                     self.classes[name] = ci
+        self.other_structs: list = []
         self._packers = {m.name: self._find_packers(m) for m in self.mods}
 
     # -- struct helpers ------------------------------------------------------
@@ -45,7 +46,10 @@ class PduModel:
                 fmt = v.args[0].value
                 mo = re.fullmatch(r"([<>!=@]?)([BHIL])", fmt)
                 if not mo:
-                    raise AnalysisError(f"{m.name}.{name}: struct format {fmt!r} not modelled")
+                    # a compound / signed format: not one of the single-field packers the layout model knows - recorded
+                    # for the wire-unsigned rule, and any use of it as a field packer is then 'not a known alias'
+                    self.other_structs.append((m, name, fmt, v))
+                    continue
                 w = STRUCT_W[mo.group(2)][0]
                 order = mo.group(1) or ("-" if w == 1 else "native")
                 if order == "!":
